@@ -20,7 +20,9 @@ class Decider:
                       'cvc5': {'sat': 0, 'unsat': 0, 'unknown': 0, 'error': 0, 'time_s': 0.0},
                       'disagreements': 0}
         self.nq = 0
-        self.cross_cap_s = 30
+        self.cross_cap_s = 10
+        self.cross_budget = {}      # label -> number of cross-checks done (at most cross_per_label per obligation)
+        self.cross_per_label = 25
         self.logic = None        # e.g. 'QF_FPBV' for pure bit-vector / floating-point queries (eager bit-blasting)
 
     def check(self, conds, lemmas=(), want_model=True, label=''):
@@ -51,7 +53,8 @@ class Decider:
         model = None
         if res == 'sat':
             model = s.model()
-        if self.cross and res != 'unknown':
+        if self.cross and res != 'unknown' and self.cross_budget.get(label, 0) < self.cross_per_label:
+            self.cross_budget[label] = self.cross_budget.get(label, 0) + 1
             other = self.cvc5(s, label)
             if other in ('sat', 'unsat') and other != res:
                 self.stats['disagreements'] += 1
